@@ -69,3 +69,59 @@ def flatten_events(finds):
             ev = ev[2]
         out.append((c, ev))
     return out
+
+
+def tree_text(rj):
+    return json.dumps([rj['expr'], rj['idents']], sort_keys=True)
+
+
+def collect_variants(ck, br, yaml, repeats, combos=None, on_panic=None):
+    """run the real loader and optimiser: -> (base, {tree_text: (opts, rj)},
+    displays {opts tuple: set of Display strings}) ; base is None when the
+    rule is rejected"""
+    base = br.call(cmd='load', yaml=yaml, opts=None)
+    if 'panic' in base or not base.get('ok'):
+        return base, {}, {}
+    variants = {}
+    displays = {}
+    for opts in (combos or artifacts.OPT_COMBOS):
+        if not any(opts):
+            continue
+        for _ in range(repeats):
+            r = br.call(cmd='load', yaml=yaml, opts=opts)
+            if 'panic' in r:
+                if on_panic:
+                    on_panic(opts, r)
+                break
+            displays.setdefault(tuple(opts), set()).add(r['display'] + ' | ' + json.dumps(r['idents'], sort_keys=True))
+            txt = tree_text(r)
+            if txt not in variants:
+                variants[txt] = (opts, r)
+    return base, variants, displays
+
+
+def opts_label(opts):
+    return ''.join('csrm'[i] if opts[i] else '-' for i in range(4))
+
+
+def safe(s):
+    return ''.join(c if c.isalnum() or c in '-_.' else '_' for c in s)[:100]
+
+
+def children(j):
+    t = j.get('t')
+    if t == 'BooleanGroup':
+        return j['g']
+    if t == 'BooleanExpression':
+        return [j['l'], j['r']]
+    if t in ('Match', 'Negate', 'Nested'):
+        return [j['e']]
+    if t == 'Matrix':
+        return [c for row in j['r'] for c in row if c is not None]
+    return []
+
+
+def any_node(j, pred):
+    if pred(j):
+        return True
+    return any(any_node(c, pred) for c in children(j))
